@@ -299,6 +299,43 @@ fn run_case<C: Suite>(c: &Case) -> Outcome {
                     }
                 }
             }
+            // order and distinctness for scalars that differ in ONE byte at every position, and powers of two
+            // bit length of the group order, from the encoding of q-1
+            let qm1 = id_numeric_key::<C>(&Identifier::<C>::new(neg::<C>(one::<C>())).unwrap());
+            let lead = qm1.iter().position(|b| *b != 0).unwrap_or(0);
+            let bits = ((qm1.len() - lead) as u32) * 8 - qm1[lead].leading_zeros() + 4; // loop bound below subtracts 5
+            let base = sc_seeded_nz::<C>("c02order");
+            let mut prev: Option<(u32, Identifier<C>)> = None;
+            for k in 0..bits.saturating_sub(5) {
+                let lo = Identifier::<C>::new(pow2::<C>(k)).unwrap();
+                let hi = Identifier::<C>::new(pow2::<C>(k) + one::<C>()).unwrap();
+                if !(lo < hi) || lo == hi {
+                    o.fail(format!("{tag}/identifier-order"), format!("Identifier(2^{k}) is not below Identifier(2^{k}+1)"));
+                }
+                if let Some((pk, p)) = &prev {
+                    if !(*p < lo) {
+                        o.fail(format!("{tag}/identifier-order"), format!("Identifier(2^{pk}) is not below Identifier(2^{k})"));
+                    }
+                }
+                prev = Some((k, lo));
+                if k % 8 == 0 && k + 10 < bits {
+                    // base vs base + 2^k: must be distinct map keys
+                    let a = Identifier::<C>::new(base).unwrap();
+                    let b = Identifier::<C>::new(base + pow2::<C>(k)).unwrap();
+                    let mut m = BTreeMap::new();
+                    m.insert(a, 0);
+                    m.insert(b, 1);
+                    if m.len() != 2 || a.cmp(&b) == std::cmp::Ordering::Equal {
+                        o.fail(format!("{tag}/identifier-order"), format!("identifiers differing only in bit {k} compare equal"));
+                    }
+                    // numeric order computed independently from the encodings
+                    let want = id_numeric_key::<C>(&a).cmp(&id_numeric_key::<C>(&b));
+                    if a.cmp(&b) != want {
+                        o.fail(format!("{tag}/identifier-order"), format!("identifiers differing in bit {k}: cmp = {:?}, numeric order = {want:?}", a.cmp(&b)));
+                    }
+                }
+                o.count("identifier_order_checks", 1);
+            }
             o.class("identifiers");
         }
         Case::Single { count, seed, .. } => {
